@@ -305,6 +305,35 @@ def r2_generator_reset(chk):
                 chk.ob('C12.R2', '%s/self.%s' % (cname, attr), False, where(o.mod, n),
                        'the prologue assigns self.%s from its own previous value (`%s`): the value of an earlier '
                        'call leaks into this one' % (attr, norm(n)[:80]))
+        # attributes genCode itself assigns before the dispatch (per-call configuration: text switch, text filter,
+        # symbol table ...): when every such assignment is conditional, the value of the previous call survives
+        def assigns_always(st, attr):
+            if isinstance(st, ast.Assign):
+                return any(common.is_self_attr(t, attr) for t in st.targets) or any(
+                    isinstance(t, ast.Tuple) and any(common.is_self_attr(e, attr) for e in t.elts) for t in st.targets)
+            if isinstance(st, ast.If):
+                return bool(st.orelse) and any(assigns_always(x, attr) for x in st.body) and \
+                    any(assigns_always(x, attr) for x in st.orelse)
+            if isinstance(st, ast.Try):
+                return any(assigns_always(x, attr) for x in st.body) and not st.handlers or \
+                    any(assigns_always(x, attr) for x in st.finalbody)
+            return False
+        for owner, fn in chain:
+            line = first_dispatch_line(fn)
+            cond_only = {}
+            for attr, kind, node in writes_in(fn):
+                if kind != 'assign' or (line is not None and node.lineno >= line):
+                    continue
+                cond_only.setdefault(attr, []).append(node)
+            for attr, nodes in sorted(cond_only.items()):
+                top = [st for st in fn.body if (line is None or st.lineno < line) and assigns_always(st, attr)]
+                if attr in written:
+                    continue   # judged above
+                total += 1
+                chk.ob('C12.R2', '%s/self.%s set on every path' % (cname, attr), bool(top), where(owner.mod, nodes[0]),
+                       'genCode assigns self.%s only under a condition (`%s`): when it does not hold the value of the '
+                       'previous call (another module, another caller) stays in force' % (
+                           attr, norm(getattr(nodes[0], '_parent', nodes[0]))[:70].split('\n')[0]))
         # R3 escapes
         esc = set()
         for owner, fn in chain:
@@ -568,4 +597,15 @@ def r5_determinism(chk):
             chk.note('audited order-insensitive site no longer present: %s' % (key,))
 
 
-RULES = [r1_parser_reset, r2_generator_reset, r4_symbol_table_read_only, r5_determinism]
+
+def r6_status_objects_not_shared(chk):
+    """the six MibStatus constants are module-level objects: setOptions must annotate a copy - shared with C07.R3"""
+    from rules.C07 import r3_status_values
+    common.reuse(chk, r3_status_values, ('C07.R3',), 'C12.R6',
+                 'MibStatus.setOptions returns an annotated copy and never writes to the module-level status constant '
+                 'it is called on: otherwise every module of this and of later compile() calls (and of other '
+                 'compilers in the process) reports the attributes of the module stored last',
+                 keep=lambda o: o.key == 'MibStatus.setOptions')
+
+
+RULES = [r1_parser_reset, r2_generator_reset, r4_symbol_table_read_only, r5_determinism, r6_status_objects_not_shared]
